@@ -97,7 +97,7 @@ class TranscriptBed(Case):
 
     def __init__(self, n, chunk, coding):
         self.n, self.chunk, self.coding = n, chunk, coding
-        mode = "chunk-relative" if chunk else "chromosome"
+        mode = ("chunk-relative, chunk of either strand" if chunk == "stranded" else "chunk-relative") if chunk else "chromosome"
         self.name = f"TranscriptInterval.to_bed12[{n} exons, {'coding' if coding else 'non-coding'}, {mode}]"
         self.call = f"tx.to_bed12(chromosome_relative_coordinates={not chunk})"
         self.ensures = {
@@ -106,6 +106,7 @@ class TranscriptBed(Case):
                 len(decoded_blocks(r)) == len(i.expected),
                 *[And(a[0] == b[0], a[1] == b[1]) for a, b in zip(decoded_blocks(r), i.expected)]),
             "bounds": lambda i, r: And(r.start == i.expected[0][0], r.end == i.expected[-1][1]),
+            # the strand column is the interval's own (chromosome) strand in both modes, also on a reverse-strand chunk
             "strand-name-chrom": lambda i, r: And(_same_enum(r.strand, i.strand), r.name == "tx1", r.chrom == "chr1"),
             "thick-is-cds-bounds": lambda i, r: And(r.thick_start == i.thick[0], r.thick_end == i.thick[1]),
             "thick-inside-record": lambda i, r: Or(And(r.thick_start == 0, r.thick_end == 0),
@@ -118,22 +119,33 @@ class TranscriptBed(Case):
         starts, ends = block_lists(S, "tx", self.n)
         strand = strand_of(S, "strand")
         off = 0
-        if self.chunk:
+        minus = False
+        if self.chunk == "stranded":
+            from .c04_liftover import chunk_parent_stranded
+            cp, cs, ce, minus = chunk_parent_stranded(S)
+            S.assume(And(cs <= starts[0], ends[-1] <= ce))
+            off = cs
+        elif self.chunk:
             cp, cs, ce = chunk_parent(S)
             S.assume(And(cs <= starts[0], ends[-1] <= ce))
             off = cs
         else:
             cp = None
-        expected = [(s - off, e - off) for s, e in zip(starts, ends)]
+        # chunk coordinates: x - cs on a plus-strand chunk; on a minus-strand chunk the axis is mirrored (chromosome
+        # block [s, e) is chunk block [ce - e, ce - s), the blocks come in reverse order and the strand flips)
+        m = (lambda s_, e_: (ce - e_, ce - s_)) if minus else (lambda s_, e_: (s_ - off, e_ - off))
+        expected = [m(s, e) for s, e in zip(starts, ends)]
+        if minus:
+            expected = expected[::-1]
         kw = dict(sequence_name="chr1", transcript_symbol="tx1", parent_or_seq_chunk_parent=cp)
         thick = (0, 0)
         if self.coding:
             cds_s, cds_e, c0, c1 = cds_in_exons(S, starts, ends)
             zero = S.enum_const(FRAME, "ZERO")
             kw.update(cds_starts=cds_s, cds_ends=cds_e, cds_frames=[zero] * self.n)
-            thick = (c0 - off, c1 - off)
+            thick = m(c0, c1)
         tx = S.new(TRANSCRIPT, starts, ends, strand, **kw)
-        return NS(tx=tx, strand=strand, expected=expected, thick=thick, span=(starts[0], ends[-1]))
+        return NS(tx=tx, strand=strand, expected=expected, thick=thick, span=(starts[0], ends[-1]), flip=minus)
 
     def samples(self, rng):
         d = sample_blocks(rng, "tx", self.n, lo=2)
@@ -144,6 +156,8 @@ class TranscriptBed(Case):
             cs = rng.randint(0, d["tx_starts"][0])
             ce = d["tx_ends"][-1] + rng.randint(0, 3)
             d.update(chunk_start=cs, chunk_end=ce, chunk_seq="".join(rng.choice("ACGT") for _ in range(ce - cs)))
+            if self.chunk == "stranded":
+                d["chunk_strand"] = rng.choice(["PLUS", "MINUS"])
         return d
 
     observe = FeatureBed.observe
@@ -257,3 +271,4 @@ CASES = [BedText(1), BedText(3), TranscriptBedCutChunk(1), TranscriptBedCutChunk
 CASES += [FeatureBed(n, c) for n in (1, 2, 3) for c in (False, True)]
 CASES += [FeatureBed(2, False, overlap=True), FeatureBed(3, False, overlap=True)]
 CASES += [TranscriptBed(n, c, k) for n in (1, 2, 3) for c in (False, True) for k in (False, True)]
+CASES += [TranscriptBed(1, "stranded", True), TranscriptBed(2, "stranded", True), TranscriptBed(2, "stranded", False)]
